@@ -54,6 +54,7 @@ def cases(tier):
             for s0 in (False, True):
                 out.append({"name": f"k{k}/{'-'.join(kinds)}/{'S0' if s0 else 'noS0'}", "kinds": list(kinds), "s0": s0})
     out.append({"name": "system-text/roundtrip", "kinds": None, "s0": False})
+    out.append({"name": "system-text/earlier-systems", "kinds": None, "s0": False, "history": True})
     return out
 
 
@@ -64,6 +65,8 @@ class _Mol:
 
 def run_case(case, g, tier, res):
     on_path = collector(res, PROPERTY)
+    if case["kinds"] is None and case.get("history"):
+        return _run_system_history(case, g, tier, res, on_path)
     if case["kinds"] is None:
         return _run_system_text(case, g, tier, res, on_path)
     kinds = case["kinds"]
@@ -264,10 +267,66 @@ def _run_system_text(case, g, tier, res, on_path):
     explore_case(res, h, tier, on_path=on_path)
 
 
+def _run_system_history(case, g, tier, res, on_path):
+    """Systems built one after the other from the same component text but with other caller-supplied masses (or none): each is
+    resolved from its own inputs only"""
+
+    def h(c):
+        P = c.fresh_real("P", 0, 100, lo_strict=True)
+        c.assume(P < 100)
+        S1 = c.fresh_real("S1", 1e-3, 1e9)
+        S2 = c.fresh_real("S2", 1e-3, 1e9)
+        text = SymStr.of("C.|", Num(P, "float"), "%|CC")
+        order = c.fresh_int("order", 0, 1).__index__()  # 0: S1, S2, none   1: S1, none, S2
+
+        def build(what):
+            def b(mv, c):
+                pv, s1, s2 = (float(c.eval_in(mv, x)) for x in (P, S1, S2))
+                return (f"C12:system-history:{what}", f"System('C.|{pv!r}%|CC') built with system masses {[s1, s2, None] if order == 0 else [s1, None, s2]} in turn: {what}",
+                        {"kind": "system-history", "P": pv, "S1": s1, "S2": s2, "order": order, "what": what})
+            return b
+
+        g.System(text, S1)
+        for S in ((S2, None) if order == 0 else (None, S2)):
+            try:
+                sysm = g.System(text, S) if S is not None else g.System(text)
+            except Exception as e:
+                core.reraise_if_harness(e)
+                c.prove(False, "history: a system is resolved from its own inputs", build(f"a later system (mass {'given' if S is not None else 'not given'}) is rejected ({type(e).__name__})"))
+                return "raised"
+            if S is None:
+                c.prove(sysm.generable is False, "history: a system is resolved from its own inputs", build("an under-determined system reports generable after an earlier system with the same text"))
+            else:
+                m0, m1 = sysm._molecules[0].mixture, sysm._molecules[1].mixture
+                ok = And(sysm.generable, m0.absolute_mass * 100 == P * S, m1.absolute_mass * 100 == (100 - P) * S, m0.relative_mass == P)
+                c.prove(ok, "history: a system is resolved from its own inputs", build("a later system does not get the masses of its own system mass"))
+        return "ok"
+
+    explore_case(res, h, tier, on_path=on_path)
+
+
 # ---------------------------------------------------------------------------
 
 
 def replay(rp, gb):
+    if rp["kind"] == "system-history":
+        text = f"C.|{rp['P']!r}%|CC"
+        seq = [rp["S1"], rp["S2"], None] if rp["order"] == 0 else [rp["S1"], None, rp["S2"]]
+        bad = []
+        for k, S in enumerate(seq):
+            try:
+                sysm = gb.System(text, S) if S is not None else gb.System(text)
+            except Exception as e:
+                bad.append(f"system {k} rejected: {type(e).__name__}: {e}")
+                continue
+            if S is None:
+                if sysm.generable is not False:
+                    bad.append(f"system {k} (no mass) reports generable")
+            else:
+                m0 = sysm._molecules[0].mixture
+                if not sysm.generable or abs(m0.absolute_mass - rp["P"] / 100 * S) > 1e-6 * max(1.0, S):
+                    bad.append(f"system {k}: generable={sysm.generable} absolute={m0.absolute_mass} expected {rp['P'] / 100 * S}")
+        return bool(bad), f"{bad}"
     from gbigsmiles.system import _estimate_system_molecular_weight
 
     if rp["kind"] == "estimate":
